@@ -152,9 +152,11 @@ theorem image_after_far_update (cfg : Cfg) (w : World) (a : Nat) (r : ModReq) (s
     (hstable : markSessionQer s0.pdrs s0.qers = (s0.qers, s0.pdrs))
     (hwf : ∀ q ∈ s0.fars, q.fseID = s0.lseid) : Inv cfg (modify cfg w a r).world := modFar_inv cfg w a r s0 hI hr h hstable hwf
 
-/-- the stored FARs of an accepted establishment carry the session's SEID (what `image_after_far_update` asks of them) -/
-theorem stored_fars_carry_the_seid (cfg : Cfg) (lseid ip : Nat) (upd : Bool) (ies : List FarIE) (fs : List Far)
-    (h : mapFars cfg lseid ip upd ies = .ok fs) : ∀ f ∈ fs, f.fseID = lseid := mapFars_fse cfg lseid ip upd ies fs h
+/-- what `image_after_far_update` asks of the stored FARs is an invariant, not an assumption: along every history every stored FAR carries
+the SEID of its session (`parseFAR` writes it, `UpdateFAR` keeps it) -/
+theorem stored_fars_carry_the_seid (cfg : Cfg) (pool : Option Pool.P) (g : Teid.G) (evs : List Ev)
+    (henv : EnvOK cfg { pool := pool, teid := g } evs) : FarWf (evs.foldl (stepEv cfg) { pool := pool, teid := g }) :=
+  (inv_run cfg evs _ (inv_start cfg pool g) (farwf_start pool g) henv).2
 
 /-- the invariant is the statement about `Agent.image` (the specification the trace oracle evaluates): each lookup
 table, read as a map, is the table obtained by installing every stored session's rules on empty tables -/
@@ -167,7 +169,7 @@ theorem tables_are_the_image_along_every_history (cfg : Cfg) (pool : Option Pool
     (henv : EnvOK cfg { pool := pool, teid := g } evs) (X : Tb) (k : String) :
     ((evs.foldl (stepEv cfg) { pool := pool, teid := g }).tables.tab X).get k =
       ((image cfg (evs.foldl (stepEv cfg) { pool := pool, teid := g })).tab X).get k :=
-  inv_iff_image cfg _ (inv_run cfg evs _ (inv_start cfg pool g) henv) X k
+  inv_iff_image cfg _ (inv_run cfg evs _ (inv_start cfg pool g) (farwf_start pool g) henv).1 X k
 
 /-- and an ended session has left nothing: a key is present only if a stored session has it -/
 theorem nothing_else_is_present (cfg : Cfg) (w : World) (hI : Inv cfg w) (X : Tb) (k v : String)
@@ -181,9 +183,9 @@ def exP1b : Agent.PdrIE := { exP1 with fteid := some (false, 2000, 0xC6120101), 
 def exP2b : Agent.PdrIE := { exP2 with ueip := some (2, 0x0A3C0002) }
 def exReq2 : Agent.EstReq := { exReq with cpSeid := 5002, pdrs := [exP1b, exP2b] }
 def exW1 : Agent.World := (Agent.establish exCfg exW 0 77 exReq).1
--- a handover of the first session (Update FAR 2 only) is in the envelope: FAR-only, stable marking, FARs carry the SEID
+-- a handover of the first session (Update FAR 2 only) is in the envelope: FAR-only, stable marking
 example : FarOnly { seid := 77, updateFars := [{ exF2 with fwd := some { dst := some 0, ohc := some (2001, 0xC612010A) } }] } ∧
-    (∀ s0 ∈ (exW1.conn 0).sessions, markSessionQer s0.pdrs s0.qers = (s0.qers, s0.pdrs) ∧ ∀ q ∈ s0.fars, q.fseID = s0.lseid) := by
+    (∀ s0 ∈ (exW1.conn 0).sessions, markSessionQer s0.pdrs s0.qers = (s0.qers, s0.pdrs)) := by
   refine ⟨⟨rfl, rfl, rfl, rfl, rfl, rfl, rfl, rfl⟩, ?_⟩
   decide +kernel
 example : (Agent.establish exCfg exW1 0 78 exReq2).2.cause = 1 ∧ (Agent.establish exCfg exW1 0 78 exReq2).1.tables.pdr.length = 4 := by decide +kernel
